@@ -230,9 +230,9 @@ const EVS: [Ev; 7] = [Ev::PollOk, Ev::PollMissing, Ev::PollCorrupt, Ev::PollMism
 
 fn status_doc(version: &str) -> String {
     let detail = json!({"status": "RUNNING", "message": "ok"});
-    // every other healthy document is that of an idle agent: no connections yet, empty summaries
+    // healthy documents come in runs of three, alternately those of a busy and of an idle agent: no connections yet, empty summaries
     static N: std::sync::atomic::AtomicUsize = std::sync::atomic::AtomicUsize::new(0);
-    if N.fetch_add(1, std::sync::atomic::Ordering::Relaxed) % 2 == 1 {
+    if (N.fetch_add(1, std::sync::atomic::Ordering::Relaxed) / 3) % 2 == 1 {
         return json!({
             "timestamp": "2024-01-01T00:00:00Z",
             "proxyAgentStatus": {"version": version, "status": "SUCCESS", "monitorStatus": detail, "keyLatchStatus": detail, "ebpfProgramStatus": detail,
